@@ -3142,9 +3142,27 @@ void sm9_z256_modn_from_hash(sm9_z256_t h, const uint8_t Ha[40])
 
 	// (r // 2^320) = (r[5], r[6])
 	sm9_z256_mul(r, r + 5, SM9_Z256_N_MINUS_ONE);
-	sm9_z256_sub(h, z, r);
 
-	sm9_z256_modn_add(h, h, SM9_Z256_ONE);
+	// d = z - q*(N-1) on 320 bits; the Barrett estimate q may be up to two too small,
+	// so 0 <= d < 3*(N-1) and d is corrected by subtracting N-1 (not N)
+	c = 0;
+	for (i = 0; i < 5; i++) {
+		uint64_t zi = z[i];
+		uint64_t d = zi - r[i];
+		uint64_t b1 = zi < r[i];
+		uint64_t e = d - c;
+		uint64_t b2 = d < c;
+		z[i] = e;
+		c = b1 | b2;
+	}
+	for (i = 0; i < 2; i++) {
+		if (z[4] || sm9_z256_cmp(z, SM9_Z256_N_MINUS_ONE) >= 0) {
+			z[4] -= sm9_z256_sub(z, z, SM9_Z256_N_MINUS_ONE);
+		}
+	}
+
+	// h = (Ha mod (N-1)) + 1 in [1, N-1]
+	(void)sm9_z256_add(h, z, SM9_Z256_ONE);
 }
 
 int sm9_z256_point_to_uncompressed_octets(const SM9_Z256_POINT *P, uint8_t octets[65])
